@@ -252,7 +252,8 @@ def run_state_fit(nord, S, pc, mask, rng, notes):
         mk[g - 1] = True
     s.mask = mk
     x, y, w = cell_data(nord, S, pc, rng)
-    return call_fit(s, x, y, w), (x, y, w), s
+    ill = illcond(s, x, w)
+    return dict(call_fit(s, x, y, w), ill=ill), (x, y, w), s
 
 
 def poly_for(nord, rng, lo, hi, amp=1.0):
@@ -401,7 +402,10 @@ def illcond(s, x, w):
         return False
 
 
-def masked_record(law, nord, S, pc, maskgood, st, finite, meas, src, data=None):
+def masked_record(law, nord, S, pc, maskgood, st, finite, meas, src, data=None, ill=None):
+    """ill: illcond() of the object BEFORE the fit (the mask a -1 leaves behind is not the one the fit was made on)."""
+    if ill is not None:
+        meas = dict(meas, condok=bool(meas.get('condok', False) and not ill) if st == 0 else (not ill))
     return {'kind': 'fitlaw', 'law': law, 'nord': nord, 'S': S, 'pc': list(pc), 'mask': sorted(int(g) for g in maskgood),
             'st': [st if isinstance(st, int) else 99], 'finite': bool(finite), 'exc': meas['exc'], 'disc': meas['disc'],
             'bdisc': meas['bdisc'], 'condok': bool(meas.get('condok', False)), 'tol': LAWTOL, 'altered': [], 'zeroidx': [], 'parts': meas['parts'], 'src': src,
@@ -687,7 +691,7 @@ def loop_history(rng, notes, big):
             meas = masked_measure(s, x, y, w, o['yfit'], rng, poly=pf) if o['st'] == 0 else \
                 masked_measure(s, x, y, w, None, rng)
             mrecs.append(masked_record('masked-poly' if pf else 'masked', nord, S, pc, good(o['before']), o['st'], o['finite'],
-                                       meas, 'loop/' + style, {'x': x.tolist(), 'y': y.tolist(), 'w': w.tolist()}))
+                                       meas, 'loop/' + style, {'x': x.tolist(), 'y': y.tolist(), 'w': w.tolist()}, ill=ill))
         if o['exc']:
             events.append({'a': 'raise', 'exc': o['exc'], 'mask': good(o['before'])})
             break
@@ -727,7 +731,7 @@ class Recorder(object):
             if rec.rng is not None and not before.all() and x2 is None:
                 st0 = isinstance(st, (int, np.integer)) and int(st) == 0
                 xd, yd, wd = (np.asarray(v, dtype='d') for v in (xdata, ydata, invvar))
-                rec.meas.append((good(before), int(st) if isinstance(st, (int, np.integer)) else 99, fin,
+                rec.meas.append((good(before), int(st) if isinstance(st, (int, np.integer)) else 99, fin, ill,
                                  masked_measure(sself, xd, yd, wd, np.asarray(yfit, dtype='d') if st0 else None, rec.rng,
                                                 poly=rec.poly if st0 else None)))
             return ret
@@ -830,8 +834,8 @@ def iterfit_history(rng, stats):
         stats['unabstractable'] = stats.get('unabstractable', 0) + 1
         return dict(hist, S=0, pc=[], weak=True)        # judged without a support problem (records mode, kind "run")
     hist['S'], hist['pc'] = ab
-    hist['masked'] = [masked_record('masked-poly' if pf else 'masked', nord, ab[0], ab[1], gk, st, fin2, meas, src, hist['data'])
-                      for gk, st, fin2, meas in rec.meas]
+    hist['masked'] = [masked_record('masked-poly' if pf else 'masked', nord, ab[0], ab[1], gk, st, fin2, meas, src, hist['data'],
+                                    ill=ill2) for gk, st, fin2, ill2, meas in rec.meas]
     return hist
 
 
@@ -978,7 +982,7 @@ def run_machine(ctx, notes):
                 dd = {'x': data[0].tolist(), 'y': data[1].tolist(), 'w': data[2].tolist()}
                 meas = masked_measure(sobj, data[0], data[1], data[2], obs['yfit'], mrng)
                 masked.append(masked_record('masked', P['nord'], P['S'], P['pc'], good(obs['before']), obs['st'], obs['finite'],
-                                            meas, 'machine', dd))
+                                            meas, 'machine', dd, ill=obs['ill']))
                 if obs['st'] == 0:
                     # the same object state, polynomial data of degree < order
                     s2 = make_sset(P['nord'], knots_for(P['nord'], P['S']), notes)
@@ -991,7 +995,7 @@ def run_machine(ctx, notes):
                     else:
                         meas2 = masked_measure(s2, data[0], yp, data[2], o2['yfit'], mrng, poly=pf)
                     masked.append(masked_record('masked-poly', P['nord'], P['S'], P['pc'], good(obs['before']), o2['st'],
-                                                o2['finite'], meas2, 'machine', dict(dd, y=yp.tolist())))
+                                                o2['finite'], meas2, 'machine', dict(dd, y=yp.tolist()), ill=obs['ill']))
         ctx.evaluated(1, 'machine-step')
         ctx.validated()
         stat[obs['st']] = stat.get(obs['st'], 0) + 1
@@ -1224,12 +1228,14 @@ def replay(ctx, case):
                 mk[g - 1] = True
             s.mask = mk
             x, y, w = np.array(d['x']), np.array(d['y']), np.array(d['w'])
+            ill = illcond(s, x, w)
             o = call_fit(s, x, y, w)
             print('fit on the masked object now: status %r exc %r' % (o['st'], o['exc']))
             meas = {'disc': 0, 'bdisc': 0, 'parts': {}, 'exc': o['exc']} if o['exc'] else \
                 masked_measure(s, x, y, w, o['yfit'] if o['st'] == 0 else None, random.Random(1))
             print('measured now (units of 1e-9):', meas)
-            rec = masked_record(rec['law'], rec['nord'], rec['S'], rec['pc'], rec['mask'], o['st'], o['finite'], meas, rec['src'])
+            rec = masked_record(rec['law'], rec['nord'], rec['S'], rec['pc'], rec['mask'], o['st'], o['finite'], meas, rec['src'],
+                                ill=ill)
         else:
             print('recorded observation (re-judged by TLC as recorded; regenerate with VERIF_SEED=%s):' % case.get('seed'))
         b, _cmp = judge_records(ctx, [rec])
